@@ -702,3 +702,55 @@ Proof.
   repeat split; eauto using source_asciiToInt, source_btrim, source_canonicalizeHeaderKey.
   intros c Hc. eexists. apply source_bsplit3; assumption.
 Qed.
+
+(* ------------------------------------------------------------------ the forms used in props/ *)
+Lemma src_request_line l : go_bytes l -> go_fits l ->
+  exists r, g2_httpParseRequestLine l = Ok r
+            /\ req_proj r = http_parse_request_line ascii_to_int (nb l)
+            /\ (snd r = None \/ snd r = Some E_ErrMalformedRequest).
+Proof. intros Hb Hf. apply source_httpParseRequestLine. split; assumption. Qed.
+Lemma src_response_line l : go_bytes l -> go_fits l ->
+  exists r, g2_httpParseResponseLine l = Ok r
+            /\ resp_proj r = http_parse_response_line ascii_to_int (nb l)
+            /\ (snd r = None \/ snd r = Some E_ErrMalformedResponse).
+Proof. intros Hb Hf. apply source_httpParseResponseLine. split; assumption. Qed.
+Lemma src_header_line l : go_bytes l -> go_fits l ->
+  exists r, g2_httpParseHeaderLine l = Ok r /\ hdr_proj r = http_parse_header_line (nb l).
+Proof. intros Hb Hf. apply source_httpParseHeaderLine. split; assumption. Qed.
+Lemma src_version l : go_bytes l -> go_fits l ->
+  exists r, g2_httpParseVersion l = Ok r /\ ver_proj r = http_parse_version ascii_to_int (nb l).
+Proof. intros Hb Hf. apply source_httpParseVersion. split; assumption. Qed.
+Lemma src_number_parser l : go_bytes l -> go_fits l ->
+  g2_asciiToInt l = Ok (match ascii_to_int (nb l) with
+                        | Some v => (v, None)
+                        | None => (0, Some E_fmt_Errorf)
+                        end).
+Proof. intros Hb Hf. apply source_asciiToInt. split; assumption. Qed.
+Lemma src_line_helpers l : go_bytes l -> go_fits l ->
+  g2_btrim l = Ok (zb (btrim (nb l))) /\
+  g2_canonicalizeHeaderKey l = Ok (zb (canonicalize (nb l))) /\
+  (forall c, 0 <= c < 256 ->
+     g2_bsplit3 l c = Ok (let '(x, y, z) := bsplit3 (nb l) (Z.to_N c) in (zb x, zb y, zb z))).
+Proof.
+  intros Hb Hf. assert (H : go_slice_val l) by (split; assumption).
+  split; [apply source_btrim, H|]. split; [apply source_canonicalizeHeaderKey, H|].
+  intros c Hc. apply source_bsplit3; assumption.
+Qed.
+Lemma src_arith_helpers a b :
+  g2_min a b = Ok (Z.min a b) /\ g2_nonZero a b = Ok (if a =? 0 then b else a) /\
+  (b <= 9223372036854775807 -> g2_pow a b = Ok (pow64 a (Z.to_N b))).
+Proof. split; [apply g2_min_ok|]. split; [apply g2_nonZero_ok|]. apply g2_pow_ok. Qed.
+
+Lemma src_no_panic_parsers l : go_bytes l -> go_fits l ->
+  (exists r, g2_httpParseRequestLine l = Ok r) /\ (exists r, g2_httpParseResponseLine l = Ok r) /\
+  (exists r, g2_httpParseHeaderLine l = Ok r) /\ (exists r, g2_httpParseVersion l = Ok r).
+Proof.
+  intros Hb Hf. destruct (source_no_panic l (conj Hb Hf)) as (H1 & H2 & H3 & H4 & _). auto.
+Qed.
+Lemma src_no_panic_helpers l : go_bytes l -> go_fits l ->
+  (exists r, g2_asciiToInt l = Ok r) /\ (exists r, g2_btrim l = Ok r) /\
+  (exists r, g2_canonicalizeHeaderKey l = Ok r) /\
+  (forall c, 0 <= c < 256 -> exists r, g2_bsplit3 l c = Ok r).
+Proof.
+  intros Hb Hf. destruct (source_no_panic l (conj Hb Hf)) as (_ & _ & _ & _ & H5 & H6 & H7 & H8). auto.
+Qed.
